@@ -252,6 +252,12 @@ class Component( ComponentLevel7 ):
     for func, obj_name in provided_func_calls:
       parent._dsl.func_calls[func].add( eval(obj_name) )
 
+    # Slices/fields of the new component's ports are created lazily by the
+    # evals above; register them like the ones created during construction
+    late_signals = obj._collect_all_single( lambda x: isinstance( x, Signal ) )
+    top._dsl.all_signals       |= late_signals
+    top._dsl.all_named_objects |= late_signals
+
     del NamedObject._elaborate_stack
 
   def _delete_component( top, obj ):
